@@ -9,7 +9,7 @@ Regenerated from the current source on every run:
                          the argument bytes (that derivation and rnd_ handle objects: hand model + tie)
 """
 import os
-from py2v import Module, Translator, HEADER
+from py2v import Module, Translator, HEADER, Refuse
 
 OUT = 'Gen_rnd.v'
 SOURCES = ['pcbasic/basic/values/randomiser.py']
@@ -17,13 +17,30 @@ SOURCES = ['pcbasic/basic/values/randomiser.py']
 
 def generate(repo):
     m = Module(os.path.join(repo, SOURCES[0]))
+    try:
+        return _generate(m, 'method')
+    except Refuse as first:
+        # the same arithmetic written with a pure helper `_cycle(seed) -> next seed` and a one-line reseed
+        try:
+            return _generate(m, 'pure')
+        except Refuse:
+            raise first
+
+
+def _generate(m, shape):
     t = Translator(m, prefix='rnd_')
     for name in ('_step', '_period', '_multiplier', '_increment'):
         coqname = t.add_const('self.' + name, m.const_value('Randomiser.' + name), coqname='rnd_' + name[1:])
         t.consts['Randomiser.' + name] = t.consts['self.' + name]
     t.function('Randomiser.clear', coqname='rnd_clear', state=['self._seed'])
-    t.function('Randomiser._cycle', coqname='rnd_cycle', state=['self._seed'])
-    t.function('Randomiser.reseed', coqname='rnd_reseed_tail', state=['self._seed'],
-               param_types={'n': 'Z'},
-               stmts=(r'^self\._seed &= 0xff', r'^self\._seed %= self\._period'))
+    if shape == 'method':
+        t.function('Randomiser._cycle', coqname='rnd_cycle', state=['self._seed'])
+        t.function('Randomiser.reseed', coqname='rnd_reseed_tail', state=['self._seed'],
+                   param_types={'n': 'Z'},
+                   stmts=(r'^self\._seed &= 0xff', r'^self\._seed %= self\._period'))
+    else:
+        t.function('Randomiser._cycle', coqname='rnd_cycle', param_types={'seed': 'Z'})
+        sel = r'^self\._seed = \(self\._cycle\(self\._seed & 0xff\)'
+        t.function('Randomiser.reseed', coqname='rnd_reseed_tail', state=['self._seed'],
+                   param_types={'n': 'Z'}, stmts=(sel, sel))
     return HEADER + '\n'.join(t.out) + '\n'
